@@ -112,6 +112,27 @@ Subset additions of x4: list / tuple displays with starred elements (``[*a, x, *
 list), oracle methods on a local bound once by an oracle constructor (``p = pathlib.PurePosixPath(x)`` … ``p.is_absolute()``),
 ``TABLE[k](a, b)`` and ``k in TABLE`` on a module-level table of callables, ``x = None`` sentinels next to the one binding that
 decides the class of a local, ``PyRt.str_partition`` (one-character separator; defined through ``splitOnMax c 1``).
+Fifth round (blocks marked `x5`; run-time additions in ``lean/PkgModel/PySet.lean``):
+  set fields   an instance attribute that ``__init__`` only ever binds to ``frozenset(…)`` / ``set(…)`` (or declares as
+               ``set[str]``) is a set: its truth value, ``len``, ``a | b``, ``a == b``, ``frozenset(a)``, ``sorted(a)`` go to set
+               primitives; *iterating* it (``for``, comprehensions, ``any``/``all``, ``iter``) goes through ``PySet.iter_ord env``:
+               the iteration order is read from the environment table (key ``frozenset.order``), so the function takes
+               ``env`` and its theorem holds for every order; building a set of ``Specifier``s evaluates the translated
+               ``__hash__`` of every element and deduplicates with the translated ``__eq__`` (``X5_HASHED_MEMBERS``)
+  objects      ``obj.x = e`` on a local bound once to ``C(…)`` and otherwise only read as ``obj.attr`` / returned; ``self.x = e``
+               in a property setter (``<Class>.<prop>.fset`` in ``SELECTED``; like ``__init__`` it hands back the updated
+               object); ``self.x: T = e`` in ``__init__``; ``self.f = K.__new__(K)`` directly followed by ``self.f.a = e``;
+               ``self.__class__(…)`` and ``isinstance(x, self.__class__)`` for a class without tracked subclasses;
+               instance fields declared ``self.x: K`` / ``K | None`` in ``__init__`` have class K (``a == b`` on an optional
+               field tests ``None`` first); the truth value of an instance of a class with ``__len__`` (and no
+               ``__bool__``) is ``len(x) != 0`` through the translated ``__len__``
+  classes      the class of a reassigned name is followed through the control flow (``x5_class_at``): constructor calls,
+               ``if not isinstance(x, C): x = C(…)``, ``if isinstance(x, (A, B)): x = C(…) elif not isinstance(x, C): return``;
+               for a *parameter* that is reassigned this replaces the "assigned once" rule (its first value is the
+               caller's); ``str(x)`` under ``if isinstance(x, (str, K))`` dispatches on the run-time class
+  other        ``sorted(xs)`` of strings, ``iter(xs)``, ``bool(x)``, ``"…{}…".format(*xs)``, ``map(<tracked class>, xs)``,
+               ``Specifier(…)`` as the primitive ``PySet.mkSpecifier`` (scanner ``S.parseSpec``; only while the source of
+               ``Specifier.__init__`` has the digest in ``PRIMITIVE_INIT_GUARDS``), ``s.strip()`` in ``specifiers.py``
 Checks made by the translator (a failure makes the function unsupported):
   * a local changed inside a ``try`` body (other than by its last simple statement) must not be read in a handler or after
     a handler that falls through: Lean's ``try … catch`` restores the locals of the ``try`` start;
@@ -424,6 +445,52 @@ MEASURED_INLINE = {
     ("packaging.utils", "parse_wheel_filename"): ("Gen.NameTables.wheelNameStructureOk",
                                                   "Gen.NameTables.wheelNameRanges Gen.NameTables.wheelNameDollar"),
 }
+# --- x5: fifth round (SpecifierSet; run-time additions in lean/PkgModel/PySet.lean) -----------------------------------
+SELECTED += [
+    ("Specifier.__str__", "packaging.specifiers", "Specifier.__str__"),
+    ("Specifier._canonical_spec", "packaging.specifiers", "Specifier._canonical_spec"),
+    ("Specifier.__hash__", "packaging.specifiers", "Specifier.__hash__"),
+    ("Specifier.__eq__", "packaging.specifiers", "Specifier.__eq__"),
+    ("SpecifierSet.__init__", "packaging.specifiers", "SpecifierSet.__init__"),
+    ("SpecifierSet.prereleases", "packaging.specifiers", "SpecifierSet.prereleases"),
+    ("SpecifierSet.prereleases__set", "packaging.specifiers", "SpecifierSet.prereleases.fset"),
+    ("SpecifierSet.__str__", "packaging.specifiers", "SpecifierSet.__str__"),
+    ("SpecifierSet.__hash__", "packaging.specifiers", "SpecifierSet.__hash__"),
+    ("SpecifierSet.__and__", "packaging.specifiers", "SpecifierSet.__and__"),
+    ("SpecifierSet.__eq__", "packaging.specifiers", "SpecifierSet.__eq__"),
+    ("SpecifierSet.__len__", "packaging.specifiers", "SpecifierSet.__len__"),
+    ("SpecifierSet.__iter__", "packaging.specifiers", "SpecifierSet.__iter__"),
+    ("SpecifierSet.__contains__", "packaging.specifiers", "SpecifierSet.__contains__"),
+    ("SpecifierSet.contains", "packaging.specifiers", "SpecifierSet.contains"),
+    ("SpecifierSet.filter", "packaging.specifiers", "SpecifierSet.filter"),
+]
+TRACKED += [("packaging.specifiers", "SpecifierSet")]
+X5_IMPORT = "PkgModel.PySet"
+# x5: Requirement (C08, C10)
+SELECTED += [
+    ("Requirement.__init__", "packaging.requirements", "Requirement.__init__"),
+    ("Requirement._iter_parts", "packaging.requirements", "Requirement._iter_parts"),
+    ("Requirement.__str__", "packaging.requirements", "Requirement.__str__"),
+    ("Requirement.__hash__", "packaging.requirements", "Requirement.__hash__"),
+    ("Requirement.__eq__", "packaging.requirements", "Requirement.__eq__"),
+]
+TRACKED += [("packaging.requirements", "Requirement")]
+# `Specifier(...)` is a run-time primitive backed by the scanner `S.parseSpec` (PySet.mkSpecifier) — but only while the
+# source of `Specifier.__init__` is the text that scanner mirrors: sha256 over the ast of the function, doc string aside
+PRIMITIVE_INITS[("packaging.specifiers", "Specifier", "__init__")] = "PySet.mkSpecifier"
+PRIMITIVE_INIT_GUARDS = {
+    ("packaging.specifiers", "Specifier", "__init__"): "7765712a296ab9c28dc295dbfbc4bfb7b070cdddd59678d7b01b9b324803eb6f",
+}
+SYMBOLIC_HASH |= {"packaging.specifiers", "packaging.requirements"}
+UNICODE_STRIP["packaging.specifiers"] = ("PySet.str_strip", X5_IMPORT)
+# `iter(xs)` of an owned list is accepted where the iterator is handed back at once (checked in `x5_call`)
+CONSUMERS |= {"iter"}
+# `map(f, xs)` of an owned list is accepted where the map is consumed at once by a builtin consumer (checked in `x5_rewrite`;
+# the run-time materialises it anyway)
+CONSUMERS |= {"map"}
+# member classes whose `__hash__` is Python code that can raise: building a set of them evaluates it for every element
+X5_HASHED_MEMBERS = {("packaging.specifiers", "Specifier")}
+# --- x5 end -----------------------------------------------------------------------------------------------------------
 
 
 # ---------------------------------------------------------------------------------------------- one function
@@ -817,6 +884,9 @@ class Fn:
     def static_class(self, e):
         """the tracked class the value of `e` is an instance of, as far as annotations / constructor calls say; else None.
         Trusted: parameter annotations and `self.x = C(...)` in `__init__` (documented in the module header)."""
+        r5 = self.x5_static_class(e)                          # --- x5
+        if r5 is not _MISSING:
+            return r5
         if isinstance(e, ast.Name):
             if e.id in self.bound_stack():
                 return None
@@ -939,7 +1009,7 @@ class Fn:
         loop_names = {t.id for n in _walk_scope(body) if isinstance(n, ast.For) for t in ast.walk(n.target) if isinstance(t, ast.Name)}
         self.locals = set(assigned) | set(params) | loop_names
         self.param_assigned = [p for p in params if p in assigned]
-        self.is_init = self.owner is not None and self.node.name == "__init__"
+        self.is_init = self.owner is not None and (self.node.name == "__init__" or self.x5_is_setter())      # x5: a property setter
         if self.is_init and params:
             if params[0] not in self.param_assigned:
                 self.param_assigned.append(params[0])
@@ -962,6 +1032,8 @@ class Fn:
                         continue                         # self.x = e inside __init__
                     if isinstance(t, ast.Subscript) and isinstance(t.value, ast.Name) and t.value.id in self.locals:
                         continue                         # x3: `name[k] = e`, checked in x3_analyse
+                    if self.x5_attr_store_ok(n, t) or self.x5_nested_store(n, t):
+                        continue                         # x5: `obj.x = e` on a local that holds a fresh object
                     for sub in ast.walk(t):
                         if isinstance(sub, (ast.Subscript, ast.Attribute)) and isinstance(sub.ctx, ast.Store):
                             raise Unsupported("assignment to a subscript or attribute")
@@ -981,6 +1053,7 @@ class Fn:
         self.hoisted = [v for v in assigned if v not in top_first and v not in params]
         self.declared = set(params) | set(self.hoisted)
         self._check_definite(body)
+        self.x5_rewrite()                                    # x5
 
     def _check_ownership(self, body):
         if not self.mutated:
@@ -1309,6 +1382,8 @@ class Fn:
     def stmt(self, st, ind):
         if self.x3_stmt(st, ind):
             return
+        if self.x5_stmt(st, ind):                            # x5
+            return
         if isinstance(st, ast.Pass):
             self.emit(ind, "pure ()")
         elif isinstance(st, ast.Return):
@@ -1617,6 +1692,9 @@ class Fn:
 
     def cond(self, e) -> str:
         """a Bool term: the truth value of `e` in a condition (monadic parts lifted)"""
+        c5 = self.x5_cond(e)                                  # x5: truth value of a set
+        if c5 is not None:
+            return c5
         if isinstance(e, ast.UnaryOp) and isinstance(e.op, ast.Not):
             return f"!({self.cond(e.operand)})"
         if isinstance(e, ast.BoolOp) and all(self.is_pure(v) for v in e.values):
@@ -1697,6 +1775,9 @@ class Fn:
         """-> (pure?, term): a PyVal term if pure, else an `M PyVal` term.  Monadic sub-terms are lifted with
         `(← …)`, which Lean hoists to the enclosing `do` element in evaluation order (left to right, as Python);
         short-circuit constructs and closures open a `do` block of their own."""
+        r5 = self.x5_expr(e)                                  # x5: `|` and `==` on sets
+        if r5 is not None:
+            return r5
         if isinstance(e, ast.Constant):
             if isinstance(e.value, (bool, int, str)) or e.value is None:
                 return True, lconst(e.value)
@@ -2184,6 +2265,9 @@ class Fn:
         r3 = self.x3_call(e, kws)
         if r3 is not None:
             return r3
+        r5 = self.x5_call(e, kws)                             # x5
+        if r5 is not None:
+            return r5
         if isinstance(f, ast.Name) and f.id in self.fn_locals:
             kind, c, r, o = self.fn_locals[f.id]
             if kws or len(e.args) != 2:
@@ -2220,6 +2304,7 @@ class Fn:
                 if inspect.isfunction(init) and key in PRIMITIVE_INITS:
                     args = self.bind_args(init, e.args, kws, skip_self=True)
                     self.ctx.imports.add("PkgModel.PyObj")
+                    self.x5_primitive_init_guard(key, init)       # x5
                     return False, f'{PRIMITIVE_INITS[key]} "{g[1].__name__}"' + "".join(" " + a for a in args)
                 if not inspect.isfunction(init):
                     raise Unsupported(f"constructor of {g[1].__name__} without a Python-level __init__")
@@ -3408,6 +3493,553 @@ class Fn:
         return None
     # ================================================================================================ x3 end
 
+    # ================================================================================================ x5 extensions
+    # frozenset fields iterated in an order read from the environment; `|`, `==`, `len`, truth value of sets; attribute
+    # assignment on a local that holds a fresh object and in a property setter; flow-sensitive classes of names that are
+    # reassigned; `sorted`, `iter`, `"…{}…".format(*xs)`, `self.__class__`, `map(<tracked class>, xs)`
+    def x5_is_setter(self):
+        """the function is the `fset` of a property of its class: `self.x = e` is a functional update and the function
+        hands back the updated object (as `__init__` does)"""
+        if self.owner is None:
+            return False
+        p = self.ctx.lookup(self.owner, self.node.name)
+        return isinstance(p, property) and p.fset is self.pyfunc
+
+    def x5_use(self):
+        self.ctx.imports.add(X5_IMPORT)
+
+    # ---- locals that hold an object built here (`v = C(...)`, bound once, only used as `v.attr` / `return v`)
+    def x5_fresh_objects(self):
+        if not hasattr(self, "_x5_fresh"):
+            out = {}
+            body = self.node.body
+            parents = {}
+            for n in _walk_scope(body, into_exprs=True):
+                for c in ast.iter_child_nodes(n):
+                    parents[c] = n
+            for st in body:
+                if isinstance(st, ast.Assign) and len(st.targets) == 1 and isinstance(st.targets[0], ast.Name) \
+                        and isinstance(st.value, ast.Call) and isinstance(st.value.func, ast.Name):
+                    v = st.targets[0].id
+                    k = self.globals.get(st.value.func.id)
+                    if not (inspect.isclass(k) and self.ctx.is_tracked(k)) or v in self.params():
+                        continue
+                    if sum(1 for n in _walk_scope(body) if v in _targets_of(n)) != 1:
+                        continue
+                    ok = True
+                    for n in _walk_scope(body, into_exprs=True):
+                        if isinstance(n, ast.Name) and n.id == v and n is not st.targets[0]:
+                            p = parents.get(n)
+                            if not ((isinstance(p, ast.Attribute) and p.value is n and not
+                                     (isinstance(parents.get(p), ast.Call) and parents[p].func is p))
+                                    or (isinstance(p, ast.Return) and p.value is n)):
+                                ok = False
+                    if ok:
+                        out[v] = k
+            self._x5_fresh = out
+        return self._x5_fresh
+
+    def x5_attr_store_ok(self, n, t):
+        if isinstance(n, ast.AnnAssign) and n.value is not None and getattr(self, "is_init", False) and isinstance(t, ast.Attribute) \
+                and isinstance(t.value, ast.Name) and t.value.id == self.params()[0]:
+            return True                                       # `self.x: T = e` inside `__init__`
+        return isinstance(n, ast.Assign) and isinstance(t, ast.Attribute) and isinstance(t.value, ast.Name) \
+            and t.value.id in self.x5_fresh_objects()
+
+    # ---- which expressions are sets, and of what
+    def x5_set_elem(self, e):
+        """`(K,)` when expression e is statically a set whose members are instances of tracked class K (K may be None),
+        else None"""
+        if isinstance(e, ast.Call) and isinstance(e.func, ast.Name) and e.func.id == "__x5_iter_ord":
+            return None
+        if isinstance(e, ast.Attribute):
+            c = self.static_class(e.value)
+            if c is not None:
+                return self.ctx.x5_field_set(c, e.attr)
+        if isinstance(e, ast.BinOp) and isinstance(e.op, ast.BitOr):
+            a, b = self.x5_set_elem(e.left), self.x5_set_elem(e.right)
+            if a is not None and b is not None and a == b:
+                return a
+        if isinstance(e, ast.Call) and isinstance(e.func, ast.Name) and e.func.id in ("frozenset", "set") \
+                and e.func.id not in self.locals and len(e.args) == 1 and not e.keywords:
+            return self.x5_set_elem(e.args[0])
+        return None
+
+    def x5_rewrite(self):
+        """after the analyses: wrap the iterable of every loop / comprehension over a frozenset field, so that the iteration
+        order is read from the environment"""
+        self.x5_parents = {}
+        for n in _walk_scope(self.node.body, into_exprs=True):
+            for c in ast.iter_child_nodes(n):
+                self.x5_parents[c] = n
+        for n in _walk_scope(self.node.body, into_exprs=True):
+            if isinstance(n, ast.Call) and isinstance(n.func, ast.Name) and n.func.id == "map" and "map" not in self.locals \
+                    and any(isinstance(a, ast.Name) and a.id in getattr(self, "mutated", ()) for a in n.args):
+                p = self.x5_parents.get(n)
+                if not (isinstance(p, ast.Call) and isinstance(p.func, ast.Name) and n in p.args
+                        and p.func.id in (CONSUMERS - {"iter", "map", "enumerate", "reversed"})):
+                    raise Unsupported("map() over a list that is mutated in place, not consumed at once")
+        for n in list(_walk_scope(self.node.body, into_exprs=True)):
+            holders = [n] if isinstance(n, ast.For) else list(n.generators) if isinstance(
+                n, (ast.ListComp, ast.GeneratorExp, ast.SetComp, ast.DictComp)) else []
+            for h in holders:
+                if self.x5_set_elem(h.iter) is not None:
+                    inner = h.iter
+                    h.iter = ast.copy_location(ast.Call(func=ast.Name(id="__x5_iter_ord", ctx=ast.Load()), args=[inner], keywords=[]), inner)
+                    self.x5_parents[inner] = h.iter
+                    self.x5_parents[h.iter] = h
+
+    def x5_loop_elem(self):
+        """loop / comprehension variable -> class of the members of the frozenset field it runs over"""
+        if not hasattr(self, "_x5_loop_elem"):
+            self._x5_loop_elem = {}          # guards the recursion through static_class
+            out, bad = {}, set()
+            for n in _walk_scope(self.node.body, into_exprs=True):
+                holders = [n] if isinstance(n, ast.For) else list(n.generators) if isinstance(
+                    n, (ast.ListComp, ast.GeneratorExp, ast.SetComp, ast.DictComp)) else []
+                for h in holders:
+                    it = h.iter
+                    if isinstance(it, ast.Call) and isinstance(it.func, ast.Name) and it.func.id == "__x5_iter_ord":
+                        it = it.args[0]
+                    k = self.x5_set_elem(it)
+                    names = [t.id for t in ast.walk(h.target) if isinstance(t, ast.Name)]
+                    if k is not None and k[0] is not None and isinstance(h.target, ast.Name):
+                        if out.get(h.target.id, k[0]) is not k[0]:
+                            bad.add(h.target.id)
+                        out[h.target.id] = k[0]
+                    else:
+                        bad.update(names)
+            for n in _walk_scope(self.node.body):
+                bad.update(_targets_of(n))
+            self._x5_loop_elem = {v: k for v, k in out.items() if v not in bad and v not in self.params()}
+        return self._x5_loop_elem
+
+    # ---- flow-sensitive class of a name that is reassigned
+    def x5_strict_ann(self, ann):
+        """`C` / `C | None` / `Optional[C]` only (a union with another class says nothing)"""
+        if isinstance(ann, ast.Constant) and isinstance(ann.value, str):
+            try:
+                ann = ast.parse(ann.value, mode="eval").body
+            except SyntaxError:
+                return None
+        if isinstance(ann, ast.BinOp) and isinstance(ann.op, ast.BitOr):
+            sides = [s for s in (ann.left, ann.right) if not (isinstance(s, ast.Constant) and s.value is None)]
+            return self.x5_strict_ann(sides[0]) if len(sides) == 1 else None
+        return self.ann_class(ann) if isinstance(ann, ast.Name) else None
+
+    def x5_isinstance_test(self, t, name):
+        """(negated, [classes]) when t is `isinstance(name, C)` / `not isinstance(name, (C, D))`, else None"""
+        neg = False
+        if isinstance(t, ast.UnaryOp) and isinstance(t.op, ast.Not):
+            neg, t = True, t.operand
+        if isinstance(t, ast.Call) and isinstance(t.func, ast.Name) and t.func.id == "isinstance" and len(t.args) == 2 \
+                and isinstance(t.args[0], ast.Name) and t.args[0].id == name and "isinstance" not in self.locals:
+            classes = []
+            for x in (t.args[1].elts if isinstance(t.args[1], ast.Tuple) else [t.args[1]]):
+                if isinstance(x, ast.Attribute) and x.attr == "__class__" and isinstance(x.value, ast.Name) \
+                        and self.owner is not None and self.node.args.args and x.value.id == self.node.args.args[0].arg:
+                    classes.append(self.owner)
+                elif isinstance(x, ast.Name):
+                    v = self.globals.get(x.id)
+                    if v is None:
+                        import builtins
+                        v = getattr(builtins, x.id, None)
+                    if not inspect.isclass(v):
+                        return None
+                    classes.append(v)
+                else:
+                    return None
+            return neg, classes
+        return None
+
+    def x5_value_class(self, v):
+        """class of the value of an assignment: a constructor call of a tracked class / `self.__class__(…)`, or what the
+        annotations say"""
+        if isinstance(v, ast.Call) and isinstance(v.func, ast.Attribute) and v.func.attr == "__class__" \
+                and isinstance(v.func.value, ast.Name) and self.owner is not None and self.node.args.args \
+                and v.func.value.id == self.node.args.args[0].arg and not self.ctx.subclasses(self.owner):
+            return self.owner
+        if isinstance(v, ast.Call):
+            return self.static_class(v)
+        return None
+
+    def x5_class_at(self, name, use):
+        """the tracked class the value of local `name` has where expression node `use` is evaluated (None: unknown)"""
+        BOT = "bot"
+
+        class Found(Exception):
+            pass
+
+        def holds(node):
+            return any(x is use for x in ast.walk(node))
+
+        def join(a, b):
+            if a == BOT:
+                return b
+            if b == BOT:
+                return a
+            return a if a is b else None
+
+        def assigns(stmts):
+            return [n for n in _walk_scope(stmts) if name in _targets_of(n)]
+
+        def flow(stmts, cur):
+            for st in stmts:
+                if isinstance(st, (ast.Assign, ast.AnnAssign, ast.AugAssign)):
+                    if holds(st):
+                        raise Found(cur)
+                    if name in _targets_of(st):
+                        t = st.targets[0] if isinstance(st, ast.Assign) and len(st.targets) == 1 else getattr(st, "target", None)
+                        cur = self.x5_value_class(st.value) if isinstance(t, ast.Name) and not isinstance(st, ast.AugAssign) else None
+                elif isinstance(st, (ast.Return, ast.Raise)):
+                    if holds(st):
+                        raise Found(cur)
+                    return BOT
+                elif isinstance(st, ast.If):
+                    if holds(st.test):
+                        raise Found(cur)
+                    inb, ine = cur, cur
+                    it = self.x5_isinstance_test(st.test, name)
+                    if it is not None:
+                        neg, classes = it
+                        one = classes[0] if len(classes) == 1 and self.ctx.is_tracked(classes[0]) else None
+                        if neg:
+                            inb, ine = (None if cur is not None and cur in classes else cur), (one if one is not None else cur)
+                        else:
+                            inb = one if one is not None else (cur if cur is not None and cur in classes else None)
+                    a = flow(st.body, inb)
+                    b = flow(st.orelse, ine)
+                    cur = join(a, b)
+                    if cur == BOT:
+                        return BOT
+                elif isinstance(st, (ast.For, ast.While)):
+                    if holds(st.iter if isinstance(st, ast.For) else st.test):
+                        raise Found(cur)
+                    entry = cur
+                    for a in assigns(st.body):
+                        entry = join(entry, self.x5_value_class(a.value) if isinstance(a, ast.Assign) else None)
+                    flow(st.body, entry)
+                    cur = entry
+                elif isinstance(st, ast.Try):
+                    a = flow(st.body, cur)
+                    if st.orelse and a != BOT:
+                        a = flow(st.orelse, a)
+                    start = cur if not assigns(st.body) else None
+                    for h in st.handlers:
+                        a = join(a, flow(h.body, start))
+                    cur = a
+                    if cur == BOT:
+                        return BOT
+                elif isinstance(st, ast.With):
+                    if any(holds(i.context_expr) for i in st.items):
+                        raise Found(cur)
+                    cur = flow(st.body, cur)
+                    if cur == BOT:
+                        return BOT
+                elif holds(st):
+                    raise Found(cur)
+            return cur
+
+        init = None
+        for a in self.node.args.args + self.node.args.kwonlyargs:
+            if a.arg == name:
+                init = self.x5_strict_ann(a.annotation)
+        try:
+            flow(self.node.body, init)
+        except Found as f:
+            r = f.args[0]
+            return None if r == BOT else r
+        return None
+
+    def x5_static_class(self, e):
+        if isinstance(e, ast.Attribute) and not (isinstance(e.value, ast.Call) and isinstance(e.value.func, ast.Name) and e.value.func.id == "super"):
+            c = self.static_class(e.value)
+            if c is not None and self.ctx.lookup(c, e.attr) is _MISSING:
+                r = self.ctx.x5_field_class(c, e.attr)
+                if r is not None:
+                    return r[0]
+            return _MISSING
+        if not isinstance(e, ast.Name):
+            return _MISSING
+        loop = self.x5_loop_elem()
+        if e.id in loop:
+            return loop[e.id]
+        if e.id in self.bound_stack() or not hasattr(self, "locals") or e.id not in self.locals:
+            return _MISSING
+        key = ("x5", e.id, id(e))
+        if key in self._class_guard:
+            return None
+        n_assign = sum(1 for n in _walk_scope(self.node.body) if e.id in _targets_of(n))
+        is_param = e.id in self.params()
+        if (is_param and n_assign >= 1) or n_assign >= 2:
+            self._class_guard.add(key)
+            try:
+                c = self.x5_class_at(e.id, e)
+            finally:
+                self._class_guard.discard(key)
+            if c is not None or is_param:
+                return c         # for a reassigned parameter the answer is final: its first value is the caller's
+        return _MISSING
+
+    def x5_narrowed_union(self, a):
+        """the classes `isinstance(a, (…))` of an enclosing `if` allows for Name a (not rebound in between), else None"""
+        if not isinstance(a, ast.Name):
+            return None
+        n = a
+        while n in self.x5_parents:
+            p = self.x5_parents[n]
+            if isinstance(p, ast.If) and n in p.body:
+                it = self.x5_isinstance_test(p.test, a.id)
+                if it is not None and not it[0]:
+                    before = [s for s in _walk_scope(p.body) if a.id in _targets_of(s) and s.lineno < a.lineno]
+                    if not before:
+                        return it[1]
+            n = p
+        return None
+
+    def x5_eqf(self, k):
+        if k == "plain":
+            self.ctx.imports.add("PkgModel.PyRx")
+            return "PyRx.eq_plain"
+        return self.eqf_of_class(k)
+
+    def x5_with_terms(self, terms, thunk):
+        """run thunk() with `expr` answering the given Lean terms for the given nodes (by id)"""
+        orig = self.expr
+        def expr(x):
+            if id(x) in terms:
+                return True, terms[id(x)]
+            return orig(x)
+        self.expr = expr
+        try:
+            return thunk()
+        finally:
+            del self.expr
+
+    def x5_optional_field(self, e):
+        """is e an instance field declared `K | None`?"""
+        if isinstance(e, ast.Attribute):
+            c = self.static_class(e.value)
+            if c is not None and self.ctx.lookup(c, e.attr) is _MISSING:
+                r = self.ctx.x5_field_class(c, e.attr)
+                return r is not None and r[1]
+        return False
+
+    def x5_hashf(self, k):
+        impl = self.ctx.lookup(k, "__hash__")
+        if not inspect.isfunction(impl):
+            raise Unsupported(f"set of {k.__name__} without a Python-level __hash__")
+        fn = self.ctx.require(impl)
+        return f"(fun __a => {self.call_selected(fn, ['__a'])})"
+
+    def x5_param_elem(self, a):
+        """member class of an iterable parameter, from its annotation (`Iterable[K]`, possibly in a union)"""
+        if not (isinstance(a, ast.Name) and a.id in self.params()):
+            return None
+        ann = next((p.annotation for p in self.node.args.args + self.node.args.kwonlyargs if p.arg == a.id), None)
+        if isinstance(ann, ast.Constant) and isinstance(ann.value, str):
+            try:
+                ann = ast.parse(ann.value, mode="eval").body
+            except SyntaxError:
+                return None
+        found = set()
+        for n in ast.walk(ann) if ann is not None else []:
+            if isinstance(n, ast.Subscript) and isinstance(n.value, ast.Name) \
+                    and n.value.id in ("Iterable", "Iterator", "Sequence", "Collection", "list", "List", "set", "frozenset", "AbstractSet"):
+                k = self.ann_class(n.slice)
+                found.add(k)
+        return found.pop() if len(found) == 1 else None
+
+    def x5_cond(self, e):
+        if self.x5_set_elem(e) is not None:
+            self.x5_use()
+            return f"PySet.set_truthy {self.val(e)}"
+        if isinstance(e, (ast.Attribute, ast.Name)):
+            c = self.static_class(e)
+            if c is not None and not self.x5_optional_field(e):
+                if inspect.isfunction(self.ctx.lookup(c, "__bool__")):
+                    raise Unsupported(f"truth value of a {c.__name__} (__bool__)")
+                impl = self.ctx.lookup(c, "__len__")
+                if inspect.isfunction(impl):            # no `__bool__`: the truth value is `len(x) != 0`
+                    if self.ctx.subclasses(c):
+                        raise Unsupported(f"truth value of a {c.__name__} with tracked subclasses")
+                    fn = self.ctx.require(impl)
+                    return f"!(PyVal.eq (← {self.call_selected(fn, [self.val(e)])}) (PyVal.int 0))"
+        return None
+
+    def x5_expr(self, e):
+        if isinstance(e, ast.BinOp) and isinstance(e.op, ast.BitOr):
+            k = self.x5_set_elem(e)
+            if k is None or k[0] is None:
+                return None
+            self.x5_use()
+            return False, f"PySet.set_union {self.x5_eqf(k[0])} {self.val(e.left)} {self.val(e.right)}"
+        if isinstance(e, ast.Compare) and len(e.ops) == 1 and isinstance(e.ops[0], ast.Eq) and self.x5_optional_field(e.left) \
+                and not getattr(e, "_x5_guarded", False):
+            # `a == b` where a is `K | None`: None compares by identity, otherwise K's `__eq__`
+            e._x5_guarded = True
+            t, u = self.fresh("l"), self.fresh("r")
+            lv, rv = self.val(e.left), self.val(e.comparators[0])
+            self._extra_bound = getattr(self, "_extra_bound", set()) | {t, u}
+            inner = ast.copy_location(ast.Compare(left=e.left, ops=e.ops, comparators=e.comparators), e)
+            inner._x5_guarded = True
+            saved = (self.val,)
+            p, c = self.x5_with_terms({id(e.left): t, id(e.comparators[0]): u}, lambda: self.compare(inner))
+            body = f"pure {c}" if p else c
+            return False, f"(do let {t} := {lv}; let {u} := {rv}; if PyRt.isNone {t} then pure (PyRt.eq {t} {u}) else {body})"
+        if isinstance(e, ast.Compare) and len(e.ops) == 1 and isinstance(e.ops[0], ast.Eq):
+            a, b = self.x5_set_elem(e.left), self.x5_set_elem(e.comparators[0])
+            if a is not None and b is not None and a == b and a[0] is not None:
+                self.x5_use()
+                return False, f"PySet.set_eq {self.x5_eqf(a[0])} {self.val(e.left)} {self.val(e.comparators[0])}"
+        if self.x5_set_elem(e) is not None and isinstance(self.x5_parents.get(e) if hasattr(self, "x5_parents") else None, ast.BoolOp):
+            raise Unsupported("a set as an operand of and / or")
+        return None
+
+    def x5_nested_store(self, n, t):
+        """`self.f.a = e` inside `__init__`, right after `self.f = K.__new__(K)` in the same block (so `self.f` is fresh)"""
+        if not (getattr(self, "is_init", False) and isinstance(n, ast.Assign) and isinstance(t, ast.Attribute)
+                and isinstance(t.value, ast.Attribute) and isinstance(t.value.value, ast.Name)
+                and t.value.value.id == self.params()[0]):
+            return False
+        for blk in [x for x in ast.walk(self.node) if isinstance(x, (ast.FunctionDef, ast.If, ast.For, ast.While, ast.Try, ast.With))]:
+            for body in (getattr(blk, "body", []), getattr(blk, "orelse", [])):
+                if n in body:
+                    i = body.index(n)
+                    if i > 0 and isinstance(body[i - 1], ast.Assign) and len(body[i - 1].targets) == 1:
+                        pt, pv = body[i - 1].targets[0], body[i - 1].value
+                        return isinstance(pt, ast.Attribute) and isinstance(pt.value, ast.Name) and pt.value.id == t.value.value.id \
+                            and pt.attr == t.value.attr and isinstance(pv, ast.Call) and isinstance(pv.func, ast.Attribute) \
+                            and pv.func.attr == "__new__"
+        return False
+
+    def x5_stmt(self, st, ind):
+        if isinstance(st, ast.AnnAssign) and st.value is not None and isinstance(st.target, ast.Attribute) \
+                and self.x5_attr_store_ok(st, st.target):
+            me = lname(st.target.value.id)
+            self.emit(ind, f'{me} ← PyRt.setattr {me} "{st.target.attr}" {self.val(st.value)}')
+            return True
+        if isinstance(st, ast.Assign) and len(st.targets) == 1 and self.x5_nested_store(st, st.targets[0]):
+            t = st.targets[0]
+            me = lname(t.value.value.id)
+            v = self.fresh("v")
+            p, c = self.expr(st.value)
+            self.emit(ind, f"let {v} := {c}" if p else f"let {v} ← {c}")
+            self.emit(ind, f'{me} ← PyRt.setattr {me} "{t.value.attr}" (← PyRt.setattr (← PyRt.getattr {me} "{t.value.attr}") "{t.attr}" {v})')
+            return True
+        if isinstance(st, ast.Assign) and len(st.targets) == 1 and self.x5_attr_store_ok(st, st.targets[0]):
+            t = st.targets[0]
+            v = lname(t.value.id)
+            self.emit(ind, f'{v} ← PyRt.setattr {v} "{t.attr}" {self.val(st.value)}')
+            return True
+        return False
+
+    def x5_primitive_init_guard(self, key, init):
+        want = PRIMITIVE_INIT_GUARDS.get(key)
+        if want is not None and _fn_digest(init) != want:
+            raise Unsupported(f"the source of {key[1]}.{key[2]} is not the text its run-time primitive mirrors")
+
+    def x5_call(self, e, kws):
+        f = e.func
+        if isinstance(f, ast.Name) and f.id == "__x5_iter_ord":
+            self.x5_use()
+            return False, f"PySet.iter_ord {self.use_env()} {self.val(e.args[0])}"
+        me = self.node.args.args[0].arg if self.owner is not None and self.node.args.args else None
+        # self.__class__(…): the constructor of the owner (no tracked subclass may exist)
+        if isinstance(f, ast.Attribute) and f.attr == "__class__" and isinstance(f.value, ast.Name) and f.value.id == me \
+                and me not in self.param_assigned_names():
+            if self.ctx.subclasses(self.owner) or self.globals.get(self.owner.__name__) is not self.owner:
+                raise Unsupported("self.__class__(…) of a class with tracked subclasses")
+            new = ast.copy_location(ast.Call(func=ast.Name(id=self.owner.__name__, ctx=ast.Load()), args=e.args, keywords=e.keywords), e)
+            return self.call(new)
+        # K.__new__(K): an object without attributes
+        if isinstance(f, ast.Attribute) and f.attr == "__new__" and isinstance(f.value, ast.Name) and len(e.args) == 1 and not kws \
+                and isinstance(e.args[0], ast.Name) and e.args[0].id == f.value.id and f.value.id not in self.locals:
+            k = self.globals.get(f.value.id)
+            if inspect.isclass(k) and self.ctx.is_tracked(k) and k.__new__ is object.__new__:
+                return True, f'(PyVal.obj "{k.__name__}" [])'
+        # "…{}…".format(*xs)
+        if isinstance(f, ast.Attribute) and f.attr == "format" and isinstance(f.value, ast.Constant) and isinstance(f.value.value, str) \
+                and len(e.args) == 1 and isinstance(e.args[0], ast.Starred) and not kws:
+            tmpl = f.value.value
+            parts = tmpl.split("{}")
+            if any("{" in p or "}" in p for p in parts):
+                raise Unsupported("format template with other than plain {} fields")
+            self.x5_use()
+            return False, "PySet.format_star [" + ", ".join(lstr(p) if p else "[]" for p in parts) + f"] {self.val(e.args[0].value)}"
+        if not (isinstance(f, ast.Name) and f.id not in self.locals and f.id not in self.globals):
+            return None
+        name, args = f.id, e.args
+        if name == "iter" and len(args) == 1 and not kws:
+            self.x5_use()
+            if self.x5_set_elem(args[0]) is not None:
+                return False, f"PySet.iter_ord {self.use_env()} {self.val(args[0])}"
+            if isinstance(args[0], ast.Name) and args[0].id in getattr(self, "mutated", ()) \
+                    and not isinstance(self.x5_parents.get(e), ast.Return):
+                raise Unsupported("iter() of a list that is mutated in place, not returned at once")
+            return False, f"PySet.iter_ {self.val(args[0])}"
+        if name == "len" and len(args) == 1 and not kws and self.x5_set_elem(args[0]) is not None:
+            self.x5_use()
+            return False, f"PySet.set_len {self.val(args[0])}"
+        if name == "bool" and len(args) == 1 and not kws:
+            self.x5_use()
+            return True, f"(PyVal.bool ({self.cond(args[0])}))"
+        if name == "sorted" and len(args) == 1 and not kws:
+            self.x5_use()
+            return False, f"PySet.sorted_ {self.val(args[0])}"
+        if name in ("frozenset", "set") and len(args) == 1 and not kws:
+            k = self.x5_set_elem(args[0])
+            k = k[0] if k is not None else self.x5_param_elem(args[0])
+            if k is None and isinstance(args[0], ast.Call) and isinstance(args[0].func, ast.Name) and args[0].func.id == "map" \
+                    and len(args[0].args) == 2 and isinstance(args[0].args[0], ast.Name):
+                v = self.globals.get(args[0].args[0].id)
+                k = v if inspect.isclass(v) and self.ctx.is_tracked(v) else None
+            if k is None and isinstance(args[0], ast.BoolOp) and isinstance(args[0].op, ast.Or) and all(
+                    self.elem_simple(v) or (isinstance(v, ast.List) and not v.elts) for v in args[0].values):
+                k = "plain"                                   # `set(xs or [])` with xs a list of strings by annotation
+            if k == "plain":
+                self.ctx.imports.add("PkgModel.PyRx")
+                return False, f'PyRx.set_of "{name}" PyRx.eq_plain {self.val(args[0])}'
+            if k is not None and (k.__module__, k.__name__) in X5_HASHED_MEMBERS:
+                self.x5_use()
+                self.ctx.imports.add("PkgModel.PyRx")
+                return False, f'PySet.set_of_h "{name}" {self.x5_hashf(k)} {self.x5_eqf(k)} {self.val(args[0])}'
+            return None
+        if name == "isinstance" and len(args) == 2 and not kws and isinstance(args[0], ast.Name):
+            it = self.x5_isinstance_test(e, args[0].id)
+            if it is not None and self.owner in it[1] and any(
+                    isinstance(x, ast.Attribute) for x in ast.walk(args[1])):          # mentions self.__class__
+                names = []
+                for c in it[1]:
+                    names += [c.__name__] + [d.__name__ for d in self.ctx.subclasses(c)] if self.ctx.is_tracked(c) else [c.__name__]
+                return True, f"(PyVal.bool (PyRt.isinstance {self.val(args[0])} [" + ", ".join(f'"{c}"' for c in names) + "]))"
+            return None
+        if name == "str" and len(args) == 1 and not kws and isinstance(args[0], ast.Name) and hasattr(self, "x5_parents"):
+            union = self.x5_narrowed_union(args[0])
+            if union is None or self.static_class(args[0]) is not None or not any(self.ctx.is_tracked(c) for c in union):
+                return None
+            t = self.fresh("s")
+            out = f"(do let {t} := {self.val(args[0])}; "
+            for c in union:
+                if self.ctx.is_tracked(c):
+                    impl = self.ctx.lookup(c, "__str__")
+                    if not inspect.isfunction(impl) or self.ctx.subclasses(c):
+                        raise Unsupported(f"str() of a {c.__name__}")
+                    out += f'if PyRt.className {t} == "{c.__name__}" then {self.call_selected(self.ctx.require(impl), [t])} else '
+                elif c not in (str, int, bool):
+                    raise Unsupported(f"str() of a {c.__name__}")
+            return False, out + f"PyRt.str_ {t})"
+        if name == "map" and len(args) == 2 and not kws and isinstance(args[0], ast.Name) and args[0].id not in self.locals:
+            v = self.globals.get(args[0].id)
+            if inspect.isclass(v) and self.ctx.is_tracked(v):
+                x = "__x5a"
+                lam = ast.Lambda(args=ast.arguments(posonlyargs=[], args=[ast.arg(arg=x)], kwonlyargs=[], kw_defaults=[], defaults=[]),
+                                 body=ast.Call(func=ast.Name(id=args[0].id, ctx=ast.Load()), args=[ast.Name(id=x, ctx=ast.Load())], keywords=[]))
+                ast.fix_missing_locations(ast.copy_location(lam, e))
+                return False, f"PyRt.map_ {self.fn_arg(lam)} {self.val(args[1])}"
+        return None
+    # ================================================================================================ x5 end
+
 
 _CMP = {ast.Lt: "lt", ast.LtE: "le", ast.Gt: "gt", ast.GtE: "ge"}
 
@@ -3515,6 +4147,16 @@ def _class_digest(cls):
                 body = body[1:]
             parts.append(st.name + ast.dump(st.args) + "".join(ast.dump(x) for x in body) + "".join(ast.dump(d) for d in st.decorator_list))
     return hashlib.sha256("\n".join(parts).encode()).hexdigest()
+
+
+def _fn_digest(f):
+    """x5: sha256 over the ast of a function, doc string aside"""
+    import hashlib
+    st = ast.parse(textwrap.dedent(inspect.getsource(f))).body[0]
+    body = st.body
+    if body and isinstance(body[0], ast.Expr) and isinstance(body[0].value, ast.Constant) and isinstance(body[0].value.value, str):
+        body = body[1:]
+    return hashlib.sha256((ast.dump(st.args) + "".join(ast.dump(x) for x in body)).encode()).hexdigest()
 
 
 def _nested_mutation(n):
@@ -3655,6 +4297,101 @@ class Ctx:
         if len(found) == 1:
             return found.pop()
         return None
+
+    def x5_field_ann(self, c, attr):
+        """x5: the annotation (ast) of `self.attr: T = …` in `__init__` of class c, with the globals to read it in; else None"""
+        init = self.lookup(c, "__init__")
+        if not inspect.isfunction(init):
+            return None
+        try:
+            fn = ast.parse(textwrap.dedent(inspect.getsource(init))).body[0]
+        except (OSError, SyntaxError):
+            return None
+        me = fn.args.args[0].arg
+        for st in ast.walk(fn):
+            if isinstance(st, ast.AnnAssign) and isinstance(st.target, ast.Attribute) and isinstance(st.target.value, ast.Name) \
+                    and st.target.value.id == me and st.target.attr == attr:
+                ann = st.annotation
+                if isinstance(ann, ast.Constant) and isinstance(ann.value, str):
+                    try:
+                        ann = ast.parse(ann.value, mode="eval").body
+                    except SyntaxError:
+                        return None
+                return ann, init.__globals__
+        return None
+
+    def x5_field_class(self, c, attr):
+        """x5: `(K, optional)` when `__init__` of c declares `self.attr: K` / `K | None` with K a tracked class; else None"""
+        r = self.x5_field_ann(c, attr)
+        if r is None:
+            return None
+        ann, g = r
+        optional = False
+        if isinstance(ann, ast.BinOp) and isinstance(ann.op, ast.BitOr):
+            sides = [x for x in (ann.left, ann.right) if not (isinstance(x, ast.Constant) and x.value is None)]
+            if len(sides) != 1:
+                return None
+            ann, optional = sides[0], True
+        if isinstance(ann, ast.Name):
+            k = g.get(ann.id)
+            if inspect.isclass(k) and self.is_tracked(k):
+                return k, optional
+        return None
+
+    def x5_field_set(self, c, attr):
+        """x5: `(K,)` when instance attribute `attr` of class c always holds a frozenset / set whose members are instances of
+        tracked class K (K None: unknown members) — every `self.attr = …` in `__init__` is `frozenset(map(K, …))` or
+        `frozenset(<parameter annotated Iterable[K]>)`; None when the attribute is not known to be a set"""
+        cache = self.__dict__.setdefault("_x5_fs", {})
+        if (c, attr) in cache:
+            return cache[(c, attr)]
+        cache[(c, attr)] = None
+        r = self.x5_field_ann(c, attr)
+        if r is not None and isinstance(r[0], ast.Subscript) and isinstance(r[0].value, ast.Name) \
+                and r[0].value.id in ("set", "frozenset", "Set", "FrozenSet") and isinstance(r[0].slice, ast.Name) \
+                and r[0].slice.id in ("str", "int"):
+            cache[(c, attr)] = ("plain",)                     # `self.attr: set[str] = …`: members compared with plain `==`
+            return cache[(c, attr)]
+        init = self.lookup(c, "__init__")
+        if not inspect.isfunction(init):
+            return None
+        try:
+            fn = ast.parse(textwrap.dedent(inspect.getsource(init))).body[0]
+        except (OSError, SyntaxError):
+            return None
+        me = fn.args.args[0].arg
+        elems, n = set(), 0
+        for st in ast.walk(fn):
+            if isinstance(st, (ast.Assign, ast.AnnAssign)):
+                for t in (st.targets if isinstance(st, ast.Assign) else [st.target]):
+                    if isinstance(t, ast.Attribute) and isinstance(t.value, ast.Name) and t.value.id == me and t.attr == attr:
+                        v = st.value
+                        n += 1
+                        if not (isinstance(v, ast.Call) and isinstance(v.func, ast.Name) and v.func.id in ("frozenset", "set")
+                                and len(v.args) == 1 and not v.keywords):
+                            return None
+                        a = v.args[0]
+                        k = None
+                        if isinstance(a, ast.Call) and isinstance(a.func, ast.Name) and a.func.id == "map" and len(a.args) == 2 \
+                                and isinstance(a.args[0], ast.Name):
+                            g = init.__globals__.get(a.args[0].id)
+                            k = g if inspect.isclass(g) and self.is_tracked(g) else None
+                        elif isinstance(a, ast.Name):
+                            ann = next((p.annotation for p in fn.args.args + fn.args.kwonlyargs if p.arg == a.id), None)
+                            if isinstance(ann, ast.Constant) and isinstance(ann.value, str):
+                                try:
+                                    ann = ast.parse(ann.value, mode="eval").body
+                                except SyntaxError:
+                                    ann = None
+                            for s_ in ast.walk(ann) if ann is not None else []:
+                                if isinstance(s_, ast.Subscript) and isinstance(s_.slice, ast.Name):
+                                    g = init.__globals__.get(s_.slice.id)
+                                    if inspect.isclass(g) and self.is_tracked(g):
+                                        k = g
+                        elems.add(k)
+        if n:
+            cache[(c, attr)] = (elems.pop() if len(elems) == 1 else None,)
+        return cache[(c, attr)]
 
     # -- functions
     def is_state_fn(self, f):
